@@ -2,9 +2,38 @@
 use crate::engine::Suite;
 
 pub fn suites() -> Vec<Suite> {
-    vec![super::swapf::suite_c06()]
+    let mut v = vec![super::swapf::suite_c06()];
+    v.extend(sys_suites());
+    v
 }
 pub const RULE: &str = "function level: same 8 generator classes as C01 plus a second offer a+δ (δ in {1, 1..1000, log-uniform}) for the monotonicity relation; non-trivial = returned with payout >= 1 and commission rate not in {0,1}; distinct = hash of (x,y,a,C); rounding boundaries tracked in the histogram (G mod s in {0,1,s-1}; C*gross near a multiple of 10^18)";
 pub const ASSUMPTIONS: &[&str] = &[
     "Nat oracle is exact; aborts are rejections (counted, not judged)",
 ];
+
+// ---- system level --------------------------------------------------------------------------------
+use crate::engine::*;
+use crate::hist::*;
+use crate::props::quotes::SimExecWithRelations;
+use crate::sys::*;
+
+fn run_sys(t: &Tape, want_desc: bool) -> CaseResult {
+    let mut o = SimExecWithRelations::default();
+    let h = run_history(t, &QUOTES, 15, &mut o, want_desc);
+    hist_case(t, h)
+}
+
+pub fn sys_suites() -> Vec<Suite> {
+    vec![Suite {
+        name: "world_quotes",
+        about: "in generated worlds the pair's Simulation (queried in the pre-state), the swap response attributes and the actual payout must agree, satisfy C06's four relations against the pre-swap reserves, and the ask reserve must fall by exactly the net return",
+        head_len: HEAD_LEN,
+        op_len: OP_LEN,
+        max_ops: 24,
+        quick_cases: 3_000,
+        thorough_cases: 300_000,
+        run: run_sys,
+        direct: Some(direct_with::<SimExecWithRelations>),
+        must_hit: &["q:execute", "q:hook", "q:paid", "k:native/native", "k:native/cw20", "k:cw20/cw20"],
+    }]
+}
